@@ -90,8 +90,11 @@ def explore_stream(acc, framing, side, names):
     cfg = '%s/%s/%s' % (framing, side, '+'.join(names))
     E, why = baseline(framing, side, frames)
     if E is None:
+        # the reference delivery itself (one valid frame per read, own unit) does not deliver one message per frame
         acc.inc('streams_excluded')
         acc.add('excluded', cfg + ': ' + why)
+        acc.violation('C06/%s/%s/lost/one-frame-per-read' % (framing, side), dict(framing=framing, side=side, stream=list(names), chunks=[len(f) for f in frames]),
+                      'a stream of valid frames delivered one frame per read: ' + why, cfg)
         return
     acc.inc('streams')
     fresh = framers.snapshot(framers.make(framing, side))
@@ -191,6 +194,8 @@ def explore_long(acc, framing, side, k, max_cuts, dense):
     if E is None:
         acc.inc('streams_excluded')
         acc.add('excluded', cfg + ': ' + why)
+        acc.violation('C06/%s/%s/lost/one-frame-per-read' % (framing, side), dict(framing=framing, side=side, stream=names, chunks=[len(f) for f in frames], long=k),
+                      'a stream of valid frames delivered one frame per read: ' + why, cfg)
         return
     acc.inc('streams')
     menu = cut_menu(framing, bounds, dense)
@@ -252,6 +257,13 @@ def stream_sets(tier):
         f3 = mix[0] + '@2'                 # a frame for a foreign unit in the stream must cost nothing but itself
         pairs = pairs + [(f3, mix[0]), (mix[1], f3), (f3, f3)]
         triples = [(mix[0], f3, mix[1]), (f3, mix[1], f3), (mix[1], mix[1] + '@2', mix[1])]
+        # frames of one function code with different lengths, in both orders
+        if side == 'req':
+            pairs += [('req10', 'req10#3'), ('req10#3', 'req10#1'), ('req10#1', 'req10'), ('req0F', 'req0F#9'), ('req0F#9', 'req0F'), ('req17', 'req17#1')]
+            triples += [('req10#1', 'req10#3', 'req10')]
+        else:
+            pairs += [('rsp03', 'rsp03#3'), ('rsp03#3', 'rsp03#1'), ('rsp03#1', 'rsp03'), ('rsp01', 'rsp01#2'), ('rsp01#2', 'rsp01')]
+            triples += [('rsp03#1', 'rsp03#3', 'rsp03')]
         if tier == 'thorough':
             pairs = list(itertools.product(allnames, repeat=2)) + [(f3, mix[0]), (mix[1], f3), (f3, f3)]
             triples = triples + list(itertools.product(mix, repeat=3)) + list(itertools.product(mix[:3], repeat=4))
@@ -315,6 +327,9 @@ def replay(w):
         got_all.extend(got)
         if exc is not None:
             bad = True
+    if E is None:
+        bad = True
+        lines.append('one frame per read: ' + why)
     if E is not None:
         if not _subseq(tuple(got_all), E):
             bad = True
